@@ -334,6 +334,10 @@ pub struct Freedoms {
     pub all_attrs: bool,
     pub junk_after_end: bool,
     pub extra_dir_clusters: bool,
+    /// FAT32: the information sector's free count is stale (lower or higher than the table's, but in range): the
+    /// specification calls it a hint that "is not necessarily correct"
+    #[serde(default)]
+    pub stale_count: bool,
 }
 
 impl Freedoms {
@@ -356,10 +360,11 @@ impl Freedoms {
             all_attrs: b(8),
             junk_after_end: false,
             extra_dir_clusters: b(9),
+            stale_count: false,
         }
     }
     pub fn count(&self) -> usize {
-        [self.fragmented, self.backwards, self.eoc_variants, self.bad_clusters, self.deleted_slots, self.orphan_runs, self.short_only, self.nt_case_flags, self.lead_05, self.oem_bytes, self.label_anywhere, self.all_attrs, self.junk_after_end, self.extra_dir_clusters]
+        [self.fragmented, self.backwards, self.eoc_variants, self.bad_clusters, self.deleted_slots, self.orphan_runs, self.short_only, self.nt_case_flags, self.lead_05, self.oem_bytes, self.label_anywhere, self.all_attrs, self.junk_after_end, self.extra_dir_clusters, self.stale_count]
             .iter()
             .filter(|x| **x)
             .count()
@@ -871,7 +876,16 @@ pub fn populate(st: &mut Store, entropy: &[u32], fr: &Freedoms, max_objects: usi
     let frag = w.fragmented_file;
     // FS-info
     if g.width == 32 && g.raw.fs_info != 0 {
-        let free_cnt = g.count_free(st) as u32;
+        let mut free_cnt = g.count_free(st) as u32;
+        if fr.stale_count {
+            free_cnt = match pool.below(5) {
+                0 => 0,
+                1 => free_cnt / 2,
+                2 => free_cnt.saturating_sub(1),
+                3 => (free_cnt + 1 + pool.below(40)).min(g.clusters as u32),
+                _ => pool.below(4),
+            };
+        }
         st.write_at(g.fsinfo_off() + 488, &free_cnt.to_le_bytes());
     }
     fn count(v: &[TNode]) -> (usize, usize) {
